@@ -1,6 +1,7 @@
 import Rivaas.Lemmas.BindAll
 import Rivaas.Spec.BindAll
 import Rivaas.Props.C04
+import Rivaas.Props.C04Body
 /-
 C04 — binds that collect their errors (`WithAllErrors`). Property theorems over `Model/BindAll.lean`.
 -/
@@ -70,5 +71,95 @@ theorem bindAll_first_error_has_cause (P : Params) (hP : FloatSane P) (cfg : Cfg
   have := bind_meets_spec P hP cfg tag fs ivs src hw hg hs
   rw [hb] at this
   simpa [Spec.specOK, toObs] using this
+
+end Rivaas.C04
+
+namespace Rivaas.C04
+open Rivaas Rivaas.Bind
+
+/-! ## the body model and the collecting model contain the proven multi-source model -/
+
+theorem filterMap_src_map (srcs : List Src) : (srcs.map Step.src).filterMap Step.src? = srcs := by
+  induction srcs with
+  | nil => rfl
+  | cons s r ih => simp [Step.src?, ih]
+
+theorem runSteps_values (P : Params) (cfg : Cfg) (fs : List Fld) (vty : Ty) (init : Val) :
+    ∀ (srcs : List Src) (cur : Val),
+      runSteps P cfg fs vty init (srcs.map Step.src) cur = ofOutcome (bindPass P cfg fs (fun _ => vty) srcs cur)
+  | [], cur => by simp [runSteps, bindPass, ofOutcome]
+  | s :: rest, cur => by
+    simp only [List.map, runSteps, bindPass]
+    by_cases ht : hasTagFs s.kind fs = true
+    · simp only [ht, if_true]
+      cases bind P cfg s.kind vty cur s with
+      | ok v => simpa using runSteps_values P cfg fs vty init rest v
+      | err e => rfl
+      | panic => rfl
+    · simp only [ht, Bool.false_eq_true, if_false]
+      exact runSteps_values P cfg fs vty init rest cur
+
+/-- **Without a body source the body model is `bindMulti`** — the model `bindMulti_meets_spec` is about. -/
+theorem bindSteps_values_only (P : Params) (cfg : Cfg) (fs : List Fld) (init : Val) (srcs : List Src) :
+    bindSteps P cfg fs init (srcs.map Step.src) = ofOutcome (bindMulti P cfg fs init srcs) := by
+  unfold bindSteps bindMulti
+  simp only [filterMap_src_map]
+  cases srcs with
+  | nil => simp [ofOutcome]
+  | cons s rest =>
+    cases rest with
+    | nil =>
+      simp only [List.map, List.isEmpty_cons, Bool.false_eq_true, if_false, List.length_singleton, Nat.le_refl, if_true,
+        beq_self_eq_true]
+      exact runSteps_values P cfg fs (.struct fs) init [s] init
+    | cons s2 rest2 =>
+      have hlen : ¬ ((s :: s2 :: rest2).length ≤ 1) := by simp
+      have hne : ((s :: s2 :: rest2).length == 1) = false := by simp
+      simp only [List.isEmpty_cons, Bool.false_eq_true, if_false, hlen, hne]
+      have hmap : (s :: s2 :: rest2).map Step.src = Step.src s :: Step.src s2 :: rest2.map Step.src := rfl
+      cases hb : bindPass P cfg fs (fun _ => Ty.struct fs) ((s :: s2 :: rest2).map fun s => { s with kvs := [] }) init with
+      | ok v =>
+        simp only []
+        have := runSteps_values P cfg fs (.struct (stripFs fs)) init (s :: s2 :: rest2) v
+        simpa [hmap] using this
+      | err e => rfl
+      | panic => rfl
+
+theorem bodiesOf_map_src (srcs : List Src) : Spec.bodiesOf (srcs.map Step.src) = [] := by
+  induction srcs with
+  | nil => rfl
+  | cons s r ih => simpa [Spec.bodiesOf] using ih
+
+theorem srcsOf_map_src (srcs : List Src) : Spec.srcsOf (srcs.map Step.src) = srcs := by
+  induction srcs with
+  | nil => rfl
+  | cons s r ih => simp [Spec.srcsOf, ih]
+
+/-- … and on value sources alone it meets the body oracle, which is then `Spec.specMulti` -/
+theorem bindSteps_values_meets_spec (P : Params) (hP : FloatSane P) (cfg : Cfg) (fs : List Fld) (ivs : List Val)
+    (srcs : List Src) (hw : wts fs ivs = true) (hg : Spec.inGrammarFs fs = true) (hs : ∀ s ∈ srcs, Spec.srcOK s = true) :
+    Spec.specSteps P cfg fs (.struct ivs) (srcs.map Step.src)
+      (toBObs (bindSteps P cfg fs (.struct ivs) (srcs.map Step.src))) = true := by
+  rw [bindSteps_values_only]
+  have h := bindMulti_meets_spec P hP cfg fs ivs srcs hw hg hs
+  cases hb : bindMulti P cfg fs (.struct ivs) srcs with
+  | ok v =>
+    rw [hb] at h
+    simpa [ofOutcome, toBObs, Spec.specSteps, bodiesOf_map_src, srcsOf_map_src, toObs] using h
+  | err e =>
+    rw [hb] at h
+    simpa [ofOutcome, toBObs, Spec.specSteps, srcsOf_map_src, toObs] using h
+  | panic =>
+    rw [hb] at h
+    simp [toObs, Spec.specMulti] at h
+
+/-- a handler that binds once a type without body tags: `bindMulti` over path, query, header, cookie -/
+theorem appRun_no_body_tags (P : Params) (fs : List Fld) (init : Val) (h : Http) (strict : Bool) (hb : h.bodyTags = false) :
+    appRun P fs init h [.bind strict] = ofOutcome (bindMulti P Cfg.default fs init h.params) := by
+  simp only [appRun, List.foldl, appStep, appBind]
+  cases bindMulti P Cfg.default fs init h.params with
+  | ok v => simp [hb, ofOutcome]
+  | err e => rfl
+  | panic => rfl
 
 end Rivaas.C04
